@@ -6,9 +6,32 @@ Only property theorems and non-vacuity examples live here; helper lemmas are in
 `encode_parallel`'s indexed collect) for every `u32` width/height, every support record with a
 `NonZeroU8` split height and every preferred fragment size — no bound on sizes.
 
-What is NOT proved here: that each encoder family is row-group local (`RowGroupLocal`, an
-assumption validated on every run by the byte comparison of the tie), and anything about real
-threads (rayon, `Mutex`): the scheduler is an arbitrary permutation of job completions.
+Row-group locality of the encoders is a THEOREM about the data-flow model `EncRows.lean` (which
+input pixels reach which per-unit encode call, in which order the results are written), for
+ARBITRARY per-unit functions: `row_group_local_uncompressed / _subsample / _block`; the families
+that are not row-group local (Bayer row index, bi-planar, error diffusion) are never split:
+`stateful_families_unsplit`; `fragmentwise_eq_whole_all_families` puts it together over the pinned
+tables (`family_table`, complete evaluation of 73 formats x 12 colours x 4 options).
+
+What REMAINS ASSUMED (not proved here, validated on every run by the byte comparison of the tie):
+ 1. `EncRows.Runs`: that the Rust body of every encoder of the table is an instance of the
+    data-flow family named there (the loops of `for_each_chunk`, `process_subsample`,
+    `for_each_f32_rgba_rows` + `block_universal`, `bi_planar_universal`,
+    `uncompressed_universal_dither` were transcribed by reading; C19 ties the encoder lists, the
+    kinds and `pick_encoder`, C14 ties `encoding_support()`, C10 ties the write sizes of the same
+    loops).
+ 2. every per-unit closure is a FUNCTION of the arguments the model gives it (and of the options,
+    which are the same for the whole image and its fragments up to `parallel`, a field no encoder
+    body reads — `grep parallel src/encode`): no state kept between calls (statics,
+    RNG, clock), the output slot is overwritten, never read.  For family (a) additionally: the
+    closure handed to `for_each_chunk` encodes pixel by pixel (`for (i, o) in line.iter().zip(out)`,
+    `convert_channels_for`, `copy_from_slice`), and for all families the conversion of the input
+    colour format (`as_rgba_f32`, `convert_to_rgba_f32`) is per pixel.  For family (c) NOTHING more is
+    needed: `encode_block` may read the whole slice it is handed (block-local dithering, whatever).
+ 3. a fragment (`ImageView::cropped`, full width) yields through `rows()` exactly the corresponding
+    rows of the image, and a `Vec<u8>` writer receives the writes in program order.
+ 4. anything about real threads (rayon, `Mutex`): the scheduler is an arbitrary permutation of job
+    completions.
 -/
 import DdsModel.Proofs.Split
 import DdsModel.Proofs.EncRows
